@@ -26,11 +26,29 @@ package main
 //   for loops         m_loop fuel ...: fuel = 65 + the sum of the lengths of the []byte parameters
 //   everything else   exactly as translate2.go (integers with explicit wrap, ordered switch, ...)
 //
+// v4 (stateful objects):
+//   struct used through a pointer receiver ("object"): a record threaded through its methods.  A []byte
+//                     field is a slice value (the heap is shared).  A [N]byte field is a slice HANDLE
+//                     (array, off, N, N) of a heap cell owned by the object: c.buf[i], c.buf[i] = v,
+//                     c.buf[i:j], c.buf[:] (bounds against N), copy(c.buf[k:], p) act on that cell and alias
+//                     correctly; c.buf = [N]byte{...} overwrites the cell; reading c.buf as a value copies it.
+//                     A VALUE of such a struct (copy) is rejected.  Structs used only as values keep arrays
+//                     as list Z values (ws.Header).  Fields of types outside the subset are LEFT OUT of the
+//                     record and any use of them is rejected.
+//   recv.m(args)      a call of another pointer-receiver method on the receiver: the callee takes the record
+//                     and returns the updated one, which rebinds the receiver (statement level only)
+//   io.Reader         a STATEFUL oracle (GoMem.g_reader): r.Read(p) / io.ReadFull(r, p) return the reader after
+//                     the call, which is stored back into the variable / field r was read from; io.Reader
+//                     parameters are returned as additional last results.  io.ReadFull = GoMem.m_io_read_full
+//   make([]byte,n,c)  m_make_cap;  copy(a[i:j], src) into an assignable [N]byte VALUE = v_copy_into
+//
 // Everything outside the subset stops the translator with
 //     translate3: unsupported construct <file>:<line>:<col>: <what>
 // and exit status 1 — it never guesses.  In particular: append, 3-index slices, closures, goroutines,
-// pointers other than a method receiver, slices stored in structs, slices of arrays that could be
-// written through, maps, channels, defer, labels, goto, fallthrough.
+// pointers other than a method receiver, values (copies) of pointer-receiver objects with array fields, slices of
+// LOCAL arrays that could be written through (other than as the destination of copy), interface method calls
+// other than io.Writer.Write / io.Reader.Read, calls into other packages, struct literals, maps, channels, defer,
+// labels, goto, fallthrough, panic.
 //
 // Trust: the translator's reading of Go and lib/GoMem.v are part of the trusted base of the
 // C0x_source_* theorems proved in proofs/Translated3Ok.v; the differential runs on the compiled
@@ -2531,7 +2549,10 @@ func (x *x3) print() string {
 	w("   - binary.X.UintNN / PutUintNN are m_get_uint / m_put_uint big k (v_get_uint on an array value).\n")
 	w("   - w.Write(p) / r.Read(p) on io.Writer / io.Reader values are the oracles m_io_write / m_io_read.\n")
 	w("   - a method with a pointer receiver takes the receiver's value as its first parameter and returns\n")
-	w("     the updated value as an additional LAST result.\n")
+	w("     the updated value as an additional LAST result; recv.m(args) rebinds the receiver.  A []byte field is a\n")
+	w("     slice value; a [N]byte field of such an object is a slice HANDLE (array, off, N, N) of a heap cell.\n")
+	w("   - io.Reader values are stateful (GoMem.g_reader): Read / io.ReadFull (m_io_read_full) return the reader\n")
+	w("     after the call, stored back where it came from; io.Reader parameters are returned after the receiver.\n")
 	w("   - integers are Z with explicit wrap_u/wrap_s after + - * << unary - ^ and narrowing conversions;\n")
 	w("     int/uint are 64 bit; constants are folded by go/types and inlined (name in a comment).\n")
 	w("   - for loops are m_loop fuel (fun state => ...) state0 over the variables assigned in the loop;\n")
